@@ -214,6 +214,9 @@ func c11Passive(c *Ctx, cs *Case) {
 // c11Freshness: an array literal makes new arrays at every level each time it is evaluated, however constant it looks
 func c11Freshness() []string {
 	return []string{
+		// a loop body / block whose only declarations are declaration lists is a scope of its own in every round
+		Lines(Var("a", "[1, 2, 3, 4, 5]"), K["var"]+" i = 0, j = 4;", While("i < j", "{ "+K["var"]+" t = a[i], u = a[j]; a[i] = u; a[j] = t; i = i + 1; j = j - 1; }"), Print("a"), Fun("f", "", " "+Var("row", "[9, 9]")+" { "+K["var"]+" row = [0, 0], n = 1; row[0] = n; } row[1] = 5; "+Ret("row")+" "), Print("f()"),
+			Var("items", "[[1], [2], [3]]"), For(Var("k", "0"), "k < 3", "k = k + 1", "{ "+K["var"]+" item = items[k], alias = item; alias[0] = alias[0] * 10; }"), Print("items")),
 		// a declaration list: a later initialiser sees (and aliases) the array an earlier name of the list holds
 		Lines(K["var"]+" a = [1, 2, 3], b = a;", "b[0] = 9;", Print("a"), K["var"]+" c = "+BI("append", "a", "4")+", d = c, e = "+BI("remove", "d", "0")+";", "d[1] = 7;", Print("c"), Print("e"), For(K["var"]+" n = "+BI("len", "a")+", i = n - 1;", "i >= 0", "i = i - 1", "{ "+Print("a[i]")+" }")),
 		Lines(Var("row", "[5, 5, 5]"), Fun("mk", "", " "+K["var"]+" row = [0, 0, 0], view = row; view[1] = 5; "+Ret("[row, view]")+" "), Print("mk()"), Print("row")),
